@@ -534,6 +534,17 @@ func genCase(r *c.Rng, worlds []*World) *Case {
 // corner: every credential × every (minted-for, presented-to) pair unmutated, then the shapes behind past findings
 func corner(worlds []*World) []*Case {
 	var out []*Case
+	// D21 (fixed by 719d1fc): the unsigned token {"aud":"acme/acme"} / {"aud":"scep/scep"}, first of all
+	for wi, w := range worlds {
+		for _, m := range []string{"acme", "scep"} {
+			if w.minter(m) == nil {
+				continue
+			}
+			for _, op := range []string{"sign", "revoke"} {
+				out = append(out, &Case{W: wi, M: m, TokOp: op, Op: op, Muts: []Mut{{K: "aud:raw", S: m + "/" + m}, {K: "alg", S: "none"}}})
+			}
+		}
+	}
 	for wi, w := range worlds {
 		for _, p := range w.minters {
 			for _, a := range ops {
